@@ -19,7 +19,7 @@ CAPS = ["audit_control", "chown", "dac_override", "dac_read_search", "fowner", "
 DOMAINS = ["inet", "inet6", "unix", "netlink", "packet", "bluetooth"]
 NTYPES = ["stream", "dgram", "raw", "seqpacket"]
 NPROTO = ["tcp", "udp", "icmp"]
-SIGNALS = ["hup", "int", "kill", "term", "usr1", "usr2", "stop", "cont", "chld", "winch", "exists", "rtmin+8"]
+SIGNALS = ["hup", "int", "kill", "term", "usr1", "usr2", "stop", "cont", "chld", "winch", "exists", "rtmin+8", "rtmin+0", "rtmin+31", "rtmin+32"]
 PEERS = ["foo", "bar", "Foo", "firefox", "gnome-*", "@{p_systemd}", "snap.firefox.firefox", "foo//bar", "unconfined", "/usr/bin/foo"]
 PTRACE = ["read", "readby", "trace", "tracedby"]
 UNIX_ACC = ["create", "bind", "listen", "accept", "connect", "shutdown", "getattr", "setattr", "getopt", "setopt", "send", "receive"]
